@@ -180,3 +180,4 @@ def run(ctx):
   check_temporal_offset(ctx)
   check_single_rounding(ctx)
   check_fmt(ctx)
+  common.check_history_independence(ctx, ["ttconv.time_code", "ttconv.imsc.attributes", "ttconv.imsc.utils", "ttconv.srt.paragraph", "ttconv.vtt.cue"])
